@@ -11,7 +11,9 @@
    spans pairwise disjoint) are what the memory map establishes for the windows it accepts (C02);
    explicit addresses that are not multiples of the window size are outside the property (note N2).
 
-   Not proved here (other component): tree_equals_flat, the composition with csr.Multiplexer leaves. *)
+   The composition with csr.Multiplexer leaves (tree_equals_flat: registers spread over a tree of decoders
+   behave like the same registers on one multiplexer at the addresses the memory map reports) is the second
+   half of this file; its proofs are in Proofs/CsrTreeFlat.v, CsrTreeMap.v, CsrTreeRegs.v. *)
 From Coq Require Import ZArith List Bool Lia.
 From Soc Require Import Lib.Bits Lib.CsrPattern Model.CsrDecoder Proofs.CsrDecoder.
 Import ListNotations.
@@ -186,3 +188,434 @@ Example C06_nonvacuous :
     [false; false; false; false] /\
   add_check 8 true 16 = Err ValueError.
 Proof. vm_compute. repeat split; reflexivity. Qed.
+
+(* ================================================================================================
+   tree_equals_flat: decoders over csr.Multiplexer leaves (Model/Hierarchy.v) behave like one flat
+   multiplexer at the addresses the root memory map reports.
+
+   Reading guide.  `csrnode` = the hierarchy as built (C01); csr_map n / csr_hw n = its root memory map /
+   its elaborated hardware; csr_run h (cinit h) tr = the cycle-exact machine on the root trace tr (per
+   cycle: bus signals and element.r_data of every register), yielding per cycle the root's r_data and the
+   element ports (id, r_stb, w_stb, w_data) of every register.  Domain as in C01: csr_dom (explicit window
+   addresses are multiples of the window size, note N2), csr_widths (no negative element width), and
+   all_resources() does not raise.
+     hw_leaves aw h     the multiplexers of the tree, depth first: hl_base = sum of the window starts on the
+                        path, hl_aw = address width, hl_cfg/hl_ids = configuration and register ids;
+     leaf_inp L (b,rv)  what L sees when the ROOT carries b (C06_leaf_sees: strobes gated by "addr in
+                        [hl_base, hl_base + 2^hl_aw)", address addr - hl_base there);
+     leaf_obs/leaf_rdata L tr  the element ports / r_data of Model/Mux.v run ALONE on these inputs;
+     reg_at aw h i L k r     the register reported as i is register number k of L, locally r;
+     rdata_after h tr t      the root's r_data in cycle t;  last_write tr a: the last cycle of tr was a
+                             write strobe at a.
+   ================================================================================================ *)
+From Soc Require Import Lib.Res Model.MemoryMap Model.Hierarchy Model.MuxSpec
+  Proofs.HierCsr Proofs.HierWf Proofs.HierInert Proofs.CsrTreeFlat Proofs.CsrTreeMap Proofs.CsrTreeRegs.
+From Soc Require Model.Mux.
+
+(* ---- the decoder layers are transparent ---- *)
+
+(* what a multiplexer at window offset hl_base sees of the root bus: the strobes gated by its window, the
+   address minus the offset inside it (outside, the truncated address with both strobes low), w_data and
+   every register value unchanged *)
+Theorem C06_leaf_sees : forall L b rv,
+  leaf_inp L (b, rv) =
+  {| Mux.i_addr := if hl_inb L (addr b) then addr b - hl_base L else trunc (hl_aw L) (addr b);
+     Mux.i_rstb := hl_inb L (addr b) && r_stb b;
+     Mux.i_wstb := hl_inb L (addr b) && w_stb b;
+     Mux.i_wdata := w_data b;
+     Mux.i_rvals := map (fun id => nth (Z.to_nat id) rv 0) (hl_ids L) |}.
+Proof. exact leaf_inp_spec. Qed.
+Print Assumptions C06_leaf_sees.
+
+(* the windows the construction gives every decoder of the tree are aligned, inside the decoder's address
+   space and pairwise disjoint (the hypotheses of C06_route_exactly_one, now derived, at every level) *)
+Theorem C06_tree_geometry : forall n m h, csr_dom n -> csr_map n = Ok m -> csr_hw n = Ok h -> geom (csr_aw n) h.
+Proof. intros n m h Hd. exact (csr_hw_geom n Hd m h). Qed.
+Print Assumptions C06_tree_geometry.
+
+(* the windows of the multiplexers are pairwise disjoint: at most one is addressed *)
+Theorem C06_tree_leaves_disjoint : forall n m h, csr_dom n -> csr_map n = Ok m -> csr_hw n = Ok h ->
+  ForallOrdPairs hl_disj (hw_leaves (csr_aw n) h).
+Proof.
+  intros n m h Hd Hm Hh. pose proof (proj2 (proj2 (proj2 (csr_map_good n Hd m Hm)))).
+  apply leaves_disjoint; [lia|exact (csr_hw_geom n Hd m h Hm Hh)].
+Qed.
+Print Assumptions C06_tree_leaves_disjoint.
+
+(* tree_equals_flat, structurally: in every cycle of every trace the tree shows exactly what its multiplexers,
+   each run alone on the root's input sequence as seen through its window, show: the element ports are the
+   concatenation of theirs, the root's r_data is the OR of theirs *)
+Theorem C06_tree_equals_flat_leaves : forall n m h, csr_dom n -> csr_map n = Ok m -> csr_hw n = Ok h ->
+  forall tr, in_range (csr_aw n) tr -> forall t b rv, nth_error tr t = Some (b, rv) ->
+  nth_error (csr_run h (cinit h) tr) t =
+  Some (dec_up (map (fun L => leaf_rdata L (firstn t tr)) (hw_leaves (csr_aw n) h)),
+        flat_map (fun L => leaf_obs L (firstn t tr) rv b) (hw_leaves (csr_aw n) h)).
+Proof.
+  intros n m h Hd Hm Hh. pose proof (proj2 (proj2 (proj2 (csr_map_good n Hd m Hm)))).
+  apply tree_run_flat; [lia|exact (csr_hw_geom n Hd m h Hm Hh)].
+Qed.
+Print Assumptions C06_tree_equals_flat_leaves.
+
+(* ---- the registers, in the root map's words ---- *)
+
+(* all_resources() of the root map and the multiplexers of the hardware list the same registers: a register
+   with leaf-local range [start, stop) in the multiplexer at offset hl_base is reported at
+   [hl_base + start, hl_base + stop), and nothing else is reported *)
+Theorem C06_tree_registers_reported : forall n m h l, csr_dom n ->
+  csr_map n = Ok m -> csr_hw n = Ok h -> all_resources m = Ok l ->
+  (forall i, In i l -> exists L k r, reg_at (csr_aw n) h i L k r) /\
+  (forall L k id r, In L (hw_leaves (csr_aw n) h) -> nth_error (hl_ids L) k = Some id ->
+     nth_error (Mux.c_regs (hl_cfg L)) k = Some r ->
+     exists i, In i l /\ i_res i = id /\ leaf_reg L k id r /\
+               i_start i = hl_base L + Mux.r_start r /\ i_end i = hl_base L + Mux.r_stop r).
+Proof.
+  intros n m h l Hd Hm Hh Hl. destruct (csr_reg_corr n Hd m h l Hm Hh Hl) as [H1 H2]. split; [|exact H2].
+  intros i Hi. destruct (H1 i Hi) as (L & k & r & H). exists L, k, r. exact H.
+Qed.
+Print Assumptions C06_tree_registers_reported.
+
+(* tree_equals_flat, per register: the element strobes of every reported register are those the FLAT
+   statements (C04_r_strobe_exact, C05_w_strobe_exact) give for a register at [i_start, i_end):
+   r_stb in cycle t  =  readable && root r_stb at t && root addr at t = i_start;
+   w_stb in cycle t  =  writable && root w_stb at t-1 && root addr at t-1 = i_end - 1 (false in cycle 0);
+   every trace, conforming or not; access mode and width (r) are fixed before the trace is chosen *)
+Theorem C06_tree_equals_flat : forall n m h l, csr_dom n -> csr_widths n ->
+  csr_map n = Ok m -> csr_hw n = Ok h -> all_resources m = Ok l ->
+  forall i, In i l ->
+  exists L k r, reg_at (csr_aw n) h i L k r /\
+    forall tr, in_range (csr_aw n) tr -> forall t b rv, nth_error tr t = Some (b, rv) ->
+    exists rd los lo, nth_error (csr_run h (cinit h) tr) t = Some (rd, los) /\ In lo los /\
+      lo_id lo = i_res i /\
+      lo_rstb lo = Mux.r_rd r && r_stb b && (addr b =? i_start i) /\
+      lo_wstb lo = Mux.r_wr r && last_write (firstn t tr) (i_end i - 1).
+Proof. intros n m h l Hd Hw Hm Hh Hl. exact (tree_strobes_flat n h l (tree_ok_intro n m h l Hd Hw Hm Hh Hl)). Qed.
+Print Assumptions C06_tree_equals_flat.
+
+Theorem C06_last_write_spec : forall tr t b rv a,
+  last_write (firstn 0 tr) a = false /\
+  (nth_error tr t = Some (b, rv) -> last_write (firstn (S t) tr) a = w_stb b && (addr b =? a)).
+Proof. intros tr t b rv a. split; [reflexivity|apply last_write_S]. Qed.
+Print Assumptions C06_last_write_spec.
+
+(* ... and the tree has no other element ports: every port of every cycle is a reported register's *)
+Theorem C06_tree_ports_are_registers : forall n m h l, csr_dom n -> csr_widths n ->
+  csr_map n = Ok m -> csr_hw n = Ok h -> all_resources m = Ok l ->
+  forall tr t b rv rd los, in_range (csr_aw n) tr -> nth_error tr t = Some (b, rv) ->
+  nth_error (csr_run h (cinit h) tr) t = Some (rd, los) ->
+  forall lo, In lo los ->
+  exists i L k r, In i l /\ reg_at (csr_aw n) h i L k r /\ lo_id lo = i_res i /\
+    lo_rstb lo = Mux.r_rd r && r_stb b && (addr b =? i_start i) /\
+    lo_wstb lo = Mux.r_wr r && last_write (firstn t tr) (i_end i - 1).
+Proof. intros n m h l Hd Hw Hm Hh Hl. exact (tree_ports_flat n h l (tree_ok_intro n m h l Hd Hw Hm Hh Hl)). Qed.
+Print Assumptions C06_tree_ports_are_registers.
+
+(* the root's r_data: zero in cycle 0; in cycle t+1 the r_data of the multiplexer addressed at t, zero if
+   the address lies in no multiplexer's window or cycle t had no read strobe *)
+Theorem C06_tree_r_data : forall n m h l, csr_dom n -> csr_widths n ->
+  csr_map n = Ok m -> csr_hw n = Ok h -> all_resources m = Ok l ->
+  forall tr, in_range (csr_aw n) tr ->
+  rdata_after h tr 0 = 0 /\
+  forall t b rv, nth_error tr t = Some (b, rv) ->
+    (forall L, In L (hw_leaves (csr_aw n) h) -> hl_in L (addr b) ->
+       rdata_after h tr (S t) = leaf_rdata L (firstn (S t) tr)) /\
+    ((forall L, In L (hw_leaves (csr_aw n) h) -> ~ hl_in L (addr b)) -> rdata_after h tr (S t) = 0) /\
+    (r_stb b = false -> rdata_after h tr (S t) = 0).
+Proof. intros n m h l Hd Hw Hm Hh Hl. exact (tree_rdata_flat n h l (tree_ok_intro n m h l Hd Hw Hm Hh Hl)). Qed.
+Print Assumptions C06_tree_r_data.
+
+(* rdata_after is the r_data csr_run reports *)
+Theorem C06_rdata_after_is_run : forall h tr t b rv, nth_error tr t = Some (b, rv) ->
+  option_map fst (nth_error (csr_run h (cinit h) tr) t) = Some (rdata_after h tr t).
+Proof. intros h tr t b rv H. rewrite (csr_run_nth h tr _ t b rv H). reflexivity. Qed.
+Print Assumptions C06_rdata_after_is_run.
+
+(* ---- bus-level corollaries: C04 / C05 for a register deep in the tree, at its ROOT addresses ---- *)
+
+(* C04_read_atomic through any number of decoders.  Premises on the ROOT trace: a read strobe at the register's
+   first reported address i_start at t0; from then to t no read strobe at the first address of any reported
+   register; a read strobe at i_start + j at t.  Then the root returns, in cycle t+1, word j of the value the
+   register presented AT t0 (rv0 = the register values of cycle t0, indexed by register id). *)
+Theorem C06_tree_read_atomic : forall n m h l, csr_dom n -> csr_widths n ->
+  csr_map n = Ok m -> csr_hw n = Ok h -> all_resources m = Ok l ->
+  forall i L k r tr t0 t j b0 rv0 bt rvt,
+  In i l -> reg_at (csr_aw n) h i L k r -> Mux.r_rd r = true -> in_range (csr_aw n) tr ->
+  nth_error tr t0 = Some (b0, rv0) -> r_stb b0 = true -> addr b0 = i_start i ->
+  (t0 <= t)%nat ->
+  (forall u bu rvu i', (t0 < u <= t)%nat -> nth_error tr u = Some (bu, rvu) -> r_stb bu = true ->
+                       In i' l -> addr bu <> i_start i') ->
+  nth_error tr t = Some (bt, rvt) -> r_stb bt = true -> addr bt = i_start i + j ->
+  0 <= j < i_end i - i_start i ->
+  rdata_after h tr (S t) =
+  Mux.word (csr_dw n) (Mux.r_width r) j (trunc (Mux.r_width r) (nth (Z.to_nat (i_res i)) rv0 0)).
+Proof. intros n m h l Hd Hw Hm Hh Hl. exact (tree_read_atomic n h l (tree_ok_intro n m h l Hd Hw Hm Hh Hl)). Qed.
+Print Assumptions C06_tree_read_atomic.
+
+(* C05_write_atomic through any number of decoders.  Premises on the ROOT trace: a write strobe at the
+   register's last reported address i_end - 1 at t; for every chunk j that carries data bits, tj j is the cycle
+   of the latest write strobe at i_start + j and dj j the data written then; from the earliest of these to t,
+   every write strobe that hits a reported register hits this one.  Then in cycle t+1 the register's element
+   port shows w_stb and, as w_data, the concatenation of the dj (C05_assemble_is_concatenation). *)
+Theorem C06_tree_write_atomic : forall n m h l, csr_dom n -> csr_widths n ->
+  csr_map n = Ok m -> csr_hw n = Ok h -> all_resources m = Ok l ->
+  forall i L k r tr t bt rvt (tj : Z -> nat) (dj : Z -> Z),
+  In i l -> reg_at (csr_aw n) h i L k r -> Mux.r_wr r = true -> in_range (csr_aw n) tr ->
+  nth_error tr t = Some (bt, rvt) -> w_stb bt = true -> addr bt = i_end i - 1 ->
+  (forall j, 0 <= j < i_end i - i_start i -> j * csr_dw n < Mux.r_width r ->
+     (tj j <= t)%nat /\
+     (exists bj rvj, nth_error tr (tj j) = Some (bj, rvj) /\ w_stb bj = true /\ addr bj = i_start i + j /\
+                     dj j = trunc (csr_dw n) (w_data bj)) /\
+     (forall u bu rvu, (tj j < u <= t)%nat -> nth_error tr u = Some (bu, rvu) ->
+                       ~ (w_stb bu = true /\ addr bu = i_start i + j))) ->
+  (forall j u bu rvu i', 0 <= j < i_end i - i_start i -> j * csr_dw n < Mux.r_width r ->
+     (tj j < u <= t)%nat -> nth_error tr u = Some (bu, rvu) -> w_stb bu = true ->
+     In i' l -> i_start i' <= addr bu < i_end i' -> i_start i <= addr bu < i_end i) ->
+  forall b' rv', nth_error tr (S t) = Some (b', rv') ->
+  exists rd los lo, nth_error (csr_run h (cinit h) tr) (S t) = Some (rd, los) /\ In lo los /\
+    lo_id lo = i_res i /\ lo_wstb lo = true /\
+    lo_wdata lo = assemble (csr_dw n) (Mux.r_width r) dj (Z.to_nat (i_end i - i_start i)).
+Proof. intros n m h l Hd Hw Hm Hh Hl. exact (tree_write_atomic n h l (tree_ok_intro n m h l Hd Hw Hm Hh Hl)). Qed.
+Print Assumptions C06_tree_write_atomic.
+
+(* ---- against ONE multiplexer, literally ----
+   flat_reg i r = the register as a flat multiplexer would hold it (range [i_start, i_end), same width and
+   access); flat_is ids tr = the root trace as that multiplexer's input sequence (same bus signals, same
+   register values). *)
+
+(* every trace: any multiplexer cF holding the register at its reported range shows, at that position, the
+   strobes the tree's register shows, cycle by cycle *)
+Theorem C06_tree_strobes_equal_flat_mux : forall n m h l, csr_dom n -> csr_widths n ->
+  csr_map n = Ok m -> csr_hw n = Ok h -> all_resources m = Ok l ->
+  forall i, In i l ->
+  exists L k r, reg_at (csr_aw n) h i L k r /\
+    forall cF idsF kF, nth_error (Mux.c_regs cF) kF = Some (flat_reg i r) ->
+    forall tr, in_range (csr_aw n) tr -> forall t b rv, nth_error tr t = Some (b, rv) ->
+    exists rd los lo, nth_error (csr_run h (cinit h) tr) t = Some (rd, los) /\ In lo los /\
+      lo_id lo = i_res i /\
+      nth_error (Mux.o_rstb (Mux.out cF (st_at cF (flat_is idsF tr) t) (flat_inp idsF (b, rv)))) kF
+        = Some (lo_rstb lo) /\
+      nth_error (Mux.o_wstb (Mux.out cF (st_at cF (flat_is idsF tr) t) (flat_inp idsF (b, rv)))) kF
+        = Some (lo_wstb lo).
+Proof. intros n m h l Hd Hw Hm Hh Hl. exact (tree_strobes_equal_flat n h l (tree_ok_intro n m h l Hd Hw Hm Hh Hl)). Qed.
+Print Assumptions C06_tree_strobes_equal_flat_mux.
+
+(* under the premises of C06_tree_read_atomic the root of the tree returns what a well-formed flat multiplexer
+   of the same data width returns, whose registers all start at reported first addresses *)
+Theorem C06_tree_read_equals_flat_mux : forall n m h l, csr_dom n -> csr_widths n ->
+  csr_map n = Ok m -> csr_hw n = Ok h -> all_resources m = Ok l ->
+  forall i L k r tr t0 t j b0 rv0 bt rvt cF idsF kF,
+  In i l -> reg_at (csr_aw n) h i L k r -> Mux.r_rd r = true -> in_range (csr_aw n) tr ->
+  nth_error tr t0 = Some (b0, rv0) -> r_stb b0 = true -> addr b0 = i_start i ->
+  (t0 <= t)%nat ->
+  (forall u bu rvu i', (t0 < u <= t)%nat -> nth_error tr u = Some (bu, rvu) -> r_stb bu = true ->
+                       In i' l -> addr bu <> i_start i') ->
+  nth_error tr t = Some (bt, rvt) -> r_stb bt = true -> addr bt = i_start i + j ->
+  0 <= j < i_end i - i_start i ->
+  wf_cfg cF -> Mux.c_dw cF = csr_dw n ->
+  nth_error (Mux.c_regs cF) kF = Some (flat_reg i r) -> nth_error idsF kF = Some (i_res i) ->
+  (forall rF, In rF (Mux.c_regs cF) -> exists i', In i' l /\ Mux.r_start rF = i_start i') ->
+  rdata_after h tr (S t) = rdata_at cF (flat_is idsF tr) (S t).
+Proof. intros n m h l Hd Hw Hm Hh Hl. exact (tree_read_equals_flat n h l (tree_ok_intro n m h l Hd Hw Hm Hh Hl)). Qed.
+Print Assumptions C06_tree_read_equals_flat_mux.
+
+(* under the premises of C06_tree_write_atomic the register receives, with its w_stb, the w_data it receives
+   on a well-formed flat multiplexer of the same data width whose registers all occupy reported ranges *)
+Theorem C06_tree_write_equals_flat_mux : forall n m h l, csr_dom n -> csr_widths n ->
+  csr_map n = Ok m -> csr_hw n = Ok h -> all_resources m = Ok l ->
+  forall i L k r tr t bt rvt (tj : Z -> nat) (dj : Z -> Z) cF idsF kF,
+  In i l -> reg_at (csr_aw n) h i L k r -> Mux.r_wr r = true -> in_range (csr_aw n) tr ->
+  nth_error tr t = Some (bt, rvt) -> w_stb bt = true -> addr bt = i_end i - 1 ->
+  (forall j, 0 <= j < i_end i - i_start i -> j * csr_dw n < Mux.r_width r ->
+     (tj j <= t)%nat /\
+     (exists bj rvj, nth_error tr (tj j) = Some (bj, rvj) /\ w_stb bj = true /\ addr bj = i_start i + j /\
+                     dj j = trunc (csr_dw n) (w_data bj)) /\
+     (forall u bu rvu, (tj j < u <= t)%nat -> nth_error tr u = Some (bu, rvu) ->
+                       ~ (w_stb bu = true /\ addr bu = i_start i + j))) ->
+  (forall j u bu rvu i', 0 <= j < i_end i - i_start i -> j * csr_dw n < Mux.r_width r ->
+     (tj j < u <= t)%nat -> nth_error tr u = Some (bu, rvu) -> w_stb bu = true ->
+     In i' l -> i_start i' <= addr bu < i_end i' -> i_start i <= addr bu < i_end i) ->
+  wf_cfg cF -> Mux.c_dw cF = csr_dw n -> nth_error (Mux.c_regs cF) kF = Some (flat_reg i r) ->
+  (forall rF, In rF (Mux.c_regs cF) ->
+     exists i', In i' l /\ Mux.r_start rF = i_start i' /\ Mux.r_stop rF = i_end i') ->
+  forall b' rv', nth_error tr (S t) = Some (b', rv') ->
+  exists rd los lo, nth_error (csr_run h (cinit h) tr) (S t) = Some (rd, los) /\ In lo los /\
+    lo_id lo = i_res i /\ lo_wstb lo = true /\
+    lo_wdata lo = Mux.elem_wdata cF (st_at cF (flat_is idsF tr) (S t)) (flat_reg i r).
+Proof. intros n m h l Hd Hw Hm Hh Hl. exact (tree_write_equals_flat n h l (tree_ok_intro n m h l Hd Hw Hm Hh Hl)). Qed.
+Print Assumptions C06_tree_write_equals_flat_mux.
+
+(* ---- non-vacuity: a 5-bit decoder (alignment 1, 8 data bits) over an anonymous 2-bit multiplexer A (a
+   two-chunk 12-bit register 0 at [0,2) and an 8-bit register 1 at the explicit address 3) and, after
+   align_to(4), a named 3-bit decoder whose named window at the explicit address 4 holds a 1-bit multiplexer B
+   with a two-chunk 12-bit register 2: reported at [20,22) = 16 + 4 + [0,2) ---- *)
+Definition fx_reg id w nm size addr :=
+  MAdd {| l_id := id; l_width := w; l_rd := true; l_wr := true; l_name := NStr nm;
+          l_size := VInt size; l_addr := addr; l_align := VNone |}.
+Definition fx_muxA := MuxLeaf 2 8 0 [fx_reg 0 12 10 2 VNone; fx_reg 1 8 11 1 (VInt 3)] None.
+Definition fx_muxB := MuxLeaf 1 8 0 [fx_reg 2 12 12 2 VNone] (Some 0).
+Definition fx_inner :=
+  CsrDec 3 8 0 [({| o_aligns := []; o_name := Some (NStr 20); o_addr := VInt 4 |}, fx_muxB)].
+Definition fx_tree :=
+  CsrDec 5 8 1 [({| o_aligns := []; o_name := None; o_addr := VNone |}, fx_muxA);
+                ({| o_aligns := [4]; o_name := Some (NStr 21); o_addr := VNone |}, fx_inner)].
+Definition fx_bus a r w d := {| addr := a; r_stb := r; w_stb := w; w_data := d |}.
+(* read both chunks of register 2 (it changes its value in between), write its two chunks with a read of
+   register 0 in between, then a stray access to the unassigned address 9 *)
+Definition fx_tr : btrace :=
+  [ (fx_bus 20 true false 0, [0; 0; 0xABC]);
+    (fx_bus 21 true false 0, [0; 0; 0x123]);
+    (fx_bus 20 false true 0x34, [0; 0; 0]);
+    (fx_bus 0 true false 0, [0xDEF; 0; 0]);
+    (fx_bus 21 false true 0x5, [0; 0; 0]);
+    (fx_bus 9 true true 0xFF, [0; 0; 0]);
+    (fx_bus 0 false false 0, [0; 0; 0]) ].
+
+Example C06_flat_nonvacuous_dom : csr_dom fx_tree /\ csr_widths fx_tree /\ in_range (csr_aw fx_tree) fx_tr.
+Proof.
+  split; [|split].
+  - cbn [csr_dom fx_tree fx_inner fx_muxA fx_muxB o_addr csr_aw].
+    repeat split; intros z H; try discriminate. injection H as <-. reflexivity.
+  - cbn. unfold ops_widths. repeat split; repeat constructor; cbn; lia.
+  - intros x Hx. cbn [csr_aw fx_tree]. unfold fx_tr in Hx. cbn [In] in Hx.
+    repeat (destruct Hx as [<-|Hx]; [cbn; lia|]). contradiction.
+Qed.
+
+Example C06_flat_nonvacuous :
+  exists m h l, csr_map fx_tree = Ok m /\ csr_hw fx_tree = Ok h /\ all_resources m = Ok l /\
+    (* the root map's report, and the multiplexers of the hardware with their local register ranges *)
+    map (fun i => (i_res i, i_start i, i_end i)) l = [(0, 0, 2); (1, 3, 4); (2, 20, 22)] /\
+    map (fun L => (hl_base L, hl_aw L, hl_ids L,
+                   map (fun r => (Mux.r_start r, Mux.r_stop r, Mux.r_width r)) (Mux.c_regs (hl_cfg L))))
+        (hw_leaves 5 h) = [(0, 2, [0; 1], [(0, 2, 12); (3, 4, 8)]); (20, 1, [2], [(0, 2, 12)])] /\
+    (* the machine: root r_data and (id, r_stb, w_stb, w_data) of every register, cycle by cycle *)
+    map (fun o : Z * list lobs => (fst o, map (fun lo => (lo_id lo, lo_rstb lo, lo_wstb lo, lo_wdata lo)) (snd o)))
+        (csr_run h (cinit h) fx_tr) =
+      [(0,    [(0, false, false, 0); (1, false, false, 0); (2, true,  false, 0)]);
+       (0xBC, [(0, false, false, 0); (1, false, false, 0); (2, false, false, 0)]);
+       (0xA,  [(0, false, false, 0); (1, false, false, 0); (2, false, false, 0)]);
+       (0,    [(0, true,  false, 0); (1, false, false, 0); (2, false, false, 0x34)]);
+       (0xEF, [(0, false, false, 0); (1, false, false, 0); (2, false, false, 0x34)]);
+       (0,    [(0, false, false, 0); (1, false, false, 0); (2, false, true,  0x534)]);
+       (0,    [(0, false, false, 0); (1, false, false, 0); (2, false, false, 0x534)])] /\
+    (* the same from the multiplexers run alone on the routed traces (C06_tree_equals_flat_leaves, cycle 5) *)
+    (dec_up (map (fun L => leaf_rdata L (firstn 5 fx_tr)) (hw_leaves 5 h)),
+     map (fun lo => (lo_id lo, lo_rstb lo, lo_wstb lo, lo_wdata lo))
+         (flat_map (fun L => leaf_obs L (firstn 5 fx_tr) [0; 0; 0] (fx_bus 9 true true 0xFF)) (hw_leaves 5 h))) =
+      (0, [(0, false, false, 0); (1, false, false, 0); (2, false, true, 0x534)]) /\
+    (* both sides of C06_tree_read_atomic (t0 = 0, t = 1, j = 1) and of C06_tree_write_atomic (t = 4) *)
+    rdata_after h fx_tr 2 = 0xA /\ Mux.word 8 12 1 (trunc 12 (nth 2 [0; 0; 0xABC] 0)) = 0xA /\
+    assemble 8 12 (fun j => if j =? 0 then 0x34 else 0x5) 2 = 0x534.
+Proof.
+  destruct (csr_map fx_tree) as [m|] eqn:Em; [|vm_compute in Em; discriminate].
+  destruct (csr_hw fx_tree) as [h|] eqn:Eh; [|vm_compute in Eh; discriminate].
+  destruct (all_resources m) as [l|] eqn:El;
+    [|vm_compute in Em; injection Em as <-; vm_compute in El; discriminate].
+  exists m, h, l. vm_compute in Em. injection Em as <-. vm_compute in Eh. injection Eh as <-.
+  vm_compute in El. injection El as <-.
+  split; [reflexivity|]. split; [reflexivity|]. split; [reflexivity|].
+  vm_compute. repeat split; reflexivity.
+Qed.
+
+(* every premise of C06_tree_read_atomic and of C06_tree_write_atomic holds on this trace for register 2, two
+   decoder levels down: the theorems are applied, not recomputed *)
+Ltac fx_setup m h l Em Eh El Em' Eh' El' :=
+  destruct (csr_map fx_tree) as [m|] eqn:Em; [|vm_compute in Em; discriminate];
+  destruct (csr_hw fx_tree) as [h|] eqn:Eh; [|vm_compute in Eh; discriminate];
+  destruct (all_resources m) as [l|] eqn:El;
+    [|vm_compute in Em; injection Em as <-; vm_compute in El; discriminate];
+  pose proof Em as Em'; pose proof Eh as Eh'; pose proof El as El';
+  vm_compute in Em; injection Em as <-; vm_compute in Eh; injection Eh as <-;
+  vm_compute in El; injection El as <-.
+
+Ltac fx_pick_reg h L r :=
+  let v := eval vm_compute in (hw_leaves 5 h) in
+  match v with [_; ?LB] => pose (L := LB) end;
+  let w := eval vm_compute in (Mux.c_regs (hl_cfg L)) in
+  match w with [?r0] => pose (r := r0) end.
+
+Example C06_tree_read_atomic_instance :
+  exists m h l, csr_map fx_tree = Ok m /\ csr_hw fx_tree = Ok h /\ all_resources m = Ok l /\
+    rdata_after h fx_tr 2 = Mux.word 8 12 1 (trunc 12 0xABC).
+Proof.
+  destruct C06_flat_nonvacuous_dom as (Hd & Hw & Hrange).
+  fx_setup m h l Em Eh El Em' Eh' El'.
+  eexists _, _, _. split; [exact Em'|]. split; [exact Eh'|]. split; [exact El'|].
+  match type of El' with _ = Ok [_; _; ?i2] => pose (i := i2) end.
+  match type of Eh' with _ = Ok ?hh => fx_pick_reg hh L r end.
+  match type of El' with _ = Ok ?ll => assert (Hi : In i ll) by (right; right; left; reflexivity) end.
+  match type of Eh' with _ = Ok ?hh => assert (Hreg : reg_at (csr_aw fx_tree) hh i L 0%nat r) end.
+  { split; [vm_compute; right; left; reflexivity|]. split.
+    - repeat split; try (vm_compute; reflexivity); vm_compute; intro; discriminate.
+    - split; vm_compute; reflexivity. }
+  refine (C06_tree_read_atomic fx_tree _ _ _ Hd Hw Em' Eh' El' i L 0%nat r fx_tr 0%nat 1%nat 1 _ _ _ _
+            Hi Hreg eq_refl Hrange eq_refl eq_refl eq_refl (le_S _ _ (le_n _)) _ eq_refl eq_refl eq_refl _).
+  - intros u bu rvu i' Hu Hn Hs Hi'. assert (u = 1)%nat by lia. subst u. cbn in Hn. injection Hn as <- <-.
+    cbn [In] in Hi'. destruct Hi' as [<-|[<-|[<-|[]]]]; cbn; lia.
+  - cbn. lia.
+Qed.
+
+Definition fx_tj (j : Z) : nat := if j =? 0 then 2%nat else 4%nat.
+Definition fx_dj (j : Z) : Z := if j =? 0 then 0x34 else 0x5.
+
+Example C06_tree_write_atomic_instance :
+  exists m h l, csr_map fx_tree = Ok m /\ csr_hw fx_tree = Ok h /\ all_resources m = Ok l /\
+    exists rd los lo, nth_error (csr_run h (cinit h) fx_tr) 5 = Some (rd, los) /\ In lo los /\
+      lo_id lo = 2 /\ lo_wstb lo = true /\ lo_wdata lo = assemble 8 12 fx_dj 2 /\ assemble 8 12 fx_dj 2 = 0x534.
+Proof.
+  destruct C06_flat_nonvacuous_dom as (Hd & Hw & Hrange).
+  fx_setup m h l Em Eh El Em' Eh' El'.
+  eexists _, _, _. split; [exact Em'|]. split; [exact Eh'|]. split; [exact El'|].
+  match type of El' with _ = Ok [_; _; ?i2] => pose (i := i2) end.
+  match type of Eh' with _ = Ok ?hh => fx_pick_reg hh L r end.
+  match type of El' with _ = Ok ?ll => assert (Hi : In i ll) by (right; right; left; reflexivity) end.
+  match type of Eh' with _ = Ok ?hh => assert (Hreg : reg_at (csr_aw fx_tree) hh i L 0%nat r) end.
+  { split; [vm_compute; right; left; reflexivity|]. split.
+    - repeat split; try (vm_compute; reflexivity); vm_compute; intro; discriminate.
+    - split; vm_compute; reflexivity. }
+  destruct (C06_tree_write_atomic fx_tree _ _ _ Hd Hw Em' Eh' El' i L 0%nat r fx_tr 4%nat _ _ fx_tj fx_dj
+              Hi Hreg eq_refl Hrange eq_refl eq_refl eq_refl) with (b' := fx_bus 9 true true 0xFF) (rv' := [0; 0; 0])
+    as (rd & los & lo & H1 & H2 & H3 & H4 & H5).
+  - intros j Hj _. cbn [i i_start i_end] in Hj. assert (Ej : j = 0 \/ j = 1) by lia.
+    destruct Ej as [-> | ->]; (split; [cbn; lia|split]).
+    + eexists _, _. split; [reflexivity|]. vm_compute. auto.
+    + intros u bu rvu Hu Hn. cbn in Hu. assert (Eu : (u = 3 \/ u = 4)%nat) by lia.
+      destruct Eu as [-> | ->]; cbn in Hn; injection Hn as <- <-; cbn; intros [? ?]; discriminate.
+    + eexists _, _. split; [reflexivity|]. vm_compute. auto.
+    + intros u bu rvu Hu. cbn in Hu. lia.
+  - intros j u bu rvu i' Hj _ Hu Hn Hs Hi' Hin. cbn [i i_start i_end] in Hj |- *.
+    assert (Ej : j = 0 \/ j = 1) by lia. destruct Ej as [-> | ->]; cbn in Hu; [|lia].
+    assert (Eu : (u = 3 \/ u = 4)%nat) by lia.
+    destruct Eu as [-> | ->]; cbn in Hn; injection Hn as <- <-; cbn in Hs |- *; [discriminate|lia].
+  - reflexivity.
+  - exists rd, los, lo. repeat split; auto.
+Qed.
+
+(* the same three registers on ONE multiplexer at the reported ranges, driven by the same trace: r_data and
+   both strobes coincide with the tree's in every cycle of this (protocol-conforming) trace, and so does w_data
+   wherever w_stb is up.  Where w_stb is low, w_data is NOT the same (last conjunct): on the flat multiplexer
+   registers 0 and 2 share write-shadow chunks, so register 0's idle w_data shows the bytes written to register
+   2, which the separate multiplexers of the tree never mix.  Port-for-port equality of idle w_data is therefore
+   false; the theorems above claim w_data only together with w_stb. *)
+Definition fx_flat_regs : list Mux.reg :=
+  [ {| Mux.r_start := 0;  Mux.r_stop := 2;  Mux.r_width := 12; Mux.r_rd := true; Mux.r_wr := true |};
+    {| Mux.r_start := 3;  Mux.r_stop := 4;  Mux.r_width := 8;  Mux.r_rd := true; Mux.r_wr := true |};
+    {| Mux.r_start := 20; Mux.r_stop := 22; Mux.r_width := 12; Mux.r_rd := true; Mux.r_wr := true |} ].
+Definition fx_strobed (ws : list bool) (ds : list Z) : list Z :=
+  map (fun p : bool * Z => if fst p then snd p else 0) (combine ws ds).
+
+Example C06_flat_mux_nonvacuous :
+  exists cF h, Mux.mk_cfg 8 fx_flat_regs None = Some cF /\ csr_hw fx_tree = Ok h /\
+    map (fun o => (Mux.o_rdata o, Mux.o_rstb o, Mux.o_wstb o, fx_strobed (Mux.o_wstb o) (Mux.o_wdata o)))
+        (Mux.run cF (Mux.init cF) (flat_is [0; 1; 2] fx_tr)) =
+    map (fun o : Z * list lobs => (fst o, map lo_rstb (snd o), map lo_wstb (snd o),
+                                   fx_strobed (map lo_wstb (snd o)) (map lo_wdata (snd o))))
+        (csr_run h (cinit h) fx_tr) /\
+    map Mux.o_wdata (Mux.run cF (Mux.init cF) (flat_is [0; 1; 2] fx_tr)) =
+      [[0; 0; 0]; [0; 0; 0]; [0; 0; 0]; [0x34; 0; 0x34]; [0x34; 0; 0x34]; [0x534; 5; 0x534]; [0x534; 5; 0x534]] /\
+    map (fun o : Z * list lobs => map lo_wdata (snd o)) (csr_run h (cinit h) fx_tr) =
+      [[0; 0; 0]; [0; 0; 0]; [0; 0; 0]; [0; 0; 0x34]; [0; 0; 0x34]; [0; 0; 0x534]; [0; 0; 0x534]].
+Proof.
+  destruct (Mux.mk_cfg 8 fx_flat_regs None) as [cF|] eqn:Ec; [|vm_compute in Ec; discriminate].
+  destruct (csr_hw fx_tree) as [h|] eqn:Eh; [|vm_compute in Eh; discriminate].
+  exists cF, h. split; [reflexivity|]. split; [reflexivity|].
+  vm_compute in Ec. injection Ec as <-. vm_compute in Eh. injection Eh as <-. vm_compute. repeat split; reflexivity.
+Qed.
